@@ -43,6 +43,8 @@ type memStore struct {
 
 const memCallCap = 200
 
+const listTimeout = 10 * time.Second
+
 var errHang = errors.New("hang: store call cap reached")
 
 func (m *memStore) GetName() string                             { return "mem" }
@@ -233,19 +235,34 @@ func doList(dir, start string, incl bool, limit int64, prefix, pattern, exclude 
 	if cur.mem != nil {
 		cur.mem.calls = 0
 	}
-	var last string
 	var err error
-	outs := hx.Guard(func() []string {
-		last, err = cur.f.StreamListDirectoryEntries(ctx, util.FullPath(dir), start, incl, limit, prefix, pattern, exclude, func(e *filer.Entry) bool {
-			names = append(names, e.Name())
-			return true
+	// watchdog: a listing that does not come back (a refill loop that never advances) is reported as
+	// `hang`; the process then stops, because the stuck goroutine cannot be cancelled
+	done := make(chan []string, 1)
+	go func() {
+		done <- hx.Guard(func() []string {
+			var got []string
+			l, e := cur.f.StreamListDirectoryEntries(ctx, util.FullPath(dir), start, incl, limit, prefix, pattern, exclude, func(e *filer.Entry) bool {
+				got = append(got, e.Name())
+				return true
+			})
+			err, names = e, got
+			o := []string{hx.Err(e), hx.HexS(l)}
+			for _, n := range got {
+				o = append(o, hx.HexS(n))
+			}
+			return o
 		})
-		o := []string{hx.Err(err), hx.HexS(last)}
-		for _, n := range names {
-			o = append(o, hx.HexS(n))
-		}
-		return o
-	})
+	}()
+	var outs []string
+	select {
+	case outs = <-done:
+	case <-time.After(listTimeout):
+		tr.Op("list", []string{hx.HexS(dir), hx.HexS(start), hx.B(incl), hx.I(limit), hx.HexS(prefix), hx.HexS(pattern), hx.HexS(exclude)}, []string{"hang"})
+		tr.Close()
+		os.RemoveAll(tmpDir)
+		os.Exit(0)
+	}
 	tr.Op("list", []string{hx.HexS(dir), hx.HexS(start), hx.B(incl), hx.I(limit), hx.HexS(prefix), hx.HexS(pattern), hx.HexS(exclude)}, outs)
 	return names, err == nil && (len(outs) == 0 || outs[0] == "ok")
 }
@@ -432,7 +449,7 @@ func main() {
 	// (1) bounded-exhaustive: every subset of the 14 names over {a,b} up to size K, rotating over stores/dirs
 	maxSize, every := 3, 1
 	if a.Thorough() {
-		maxSize = 5
+		maxSize = len(baseNames) // every subset of the 14 names; over seeds 1..4 each subset meets each store
 	}
 	n := 0
 	subsets(baseNames, maxSize, func(names []string) {
